@@ -1112,6 +1112,11 @@ class Action:
 
         if value is None:
             return
+        #
+        # A reference that's still there (one that came in with the value of a variable) is expanded here, in the
+        # value; not when the variable is set, in the elements that the list already has
+        #
+        value = re.sub(r"(\${([^}]*)})", lambda x : os.environ.get(x.group(2), x.group(1)), value)
 
         if delim in value:
             if Eups.verbose > 1:
@@ -1142,7 +1147,7 @@ class Action:
         if Eups.force and envVar in Eups.oldEnviron:
             Eups.oldEnviron[envVar] = None # forget the old value (so it's always exported), not the variable
 
-        Eups.setEnv(envVar, npath, interpolateEnv=True)
+        Eups.setEnv(envVar, npath)
 
     def execute_addAlias(self, Eups, fwd=True):
         """Execute addAlias"""
